@@ -28,6 +28,10 @@ CLAIMED = {
          "exploration",
          "Every request kind of the admission table is issued in sampled sessions of every scheme it applies to; the party step must end in Err or abort and emit no commitment, proof or positive decision.",
          "3.11", "only request kinds the statement lists are in the table; in-domain no-abort is the liveness oracle of C01/C06/C11 runs"),
+ "C04": ("deterministic session simulation with bound-metadata faults on in-flight commitments (bound mislabelled on the channel or by a byzantine prover that re-runs the library prover under the other label, label dropped, degree-bound part dropped / swapped with another polynomial's / taken from another bound, label added to an unbounded commitment) plus prover-side admission requests at the boundary (deg = d+1, bound not enforced, keys trimmed without bounds, bound or degree above supported)",
+         "exploration",
+         "For MarlinKZG10, SonicKZG10 and IPA: an honest transcript re-delivered with any bound fault must not be accepted (exempt only presentations that are bit-identical in distribution to an honest commitment under the presented label: zero polynomial, constant presented without bound, Sonic zero shift); out-of-bound commit/open requests must end in Err/abort.",
+         "3.4", "exemptions are stated in DESIGN.md section 3.4; MarlinKZG10's acceptance of bounds in (supported, max] is a recorded known finding"),
  "C05": ("dual-verifier simulation: batch verifier replica vs per-point check replica on identical delivered messages, with false-claim subsets, challenge-aware cancelling errors across point groups, proof-list permutation/truncation/extension/duplication, and the verifier-RNG seam re-seeded 4 times",
          "exploration",
          "For every delivered (possibly faulted) batch the decision of batch_check must equal the AND of the individual checks under every verifier RNG stream; challenge-aware cross-group cancellation targets constant or reused batch randomizers.",
